@@ -185,7 +185,12 @@ static xmlChar* xmlEscapePropValue(const char *str) {
                     while (utfLen--)
                         *retPos++ = *it++;
                 } else {
-                    xmlStrPrintf(retPos, retEnd - retPos, "&x%x;", ucs);
+                    /* Valid UTF8 of a character XML does not allow, escape entire sequence */
+                    for(int i = 0;i < utfLen;++i) {
+                        xmlStrPrintf(retPos, retEnd-retPos, "\\x%.2" PRIx8, *it);
+                        retPos += 4;
+                        ++it;
+                    }
                 }
             } else {
                 /* Disallowed character or overlong UTF8, escape entire sequence */
